@@ -256,6 +256,8 @@ class Analysis:
         self.converged = False
         self.head_entry = {}
         self.loop_nodes = {}
+        self.alloc_size = {}
+        self.octets = set()
         self._rec = None
         self.run(max_passes)
 
@@ -467,16 +469,21 @@ class Analysis:
         if k == 'opcall':
             return self.ev_opcall(e, st, nid)
         if k == 'ctor':
-            args = tuple(self.ev(a, st, nid) for a in e['a'])
+            args = tuple(self.ev_arg(a, st, nid) for a in e['a'])
+            self.event(nid, ('ctor', e['f'], args, e.get('l', 0), e.get('fid', '')))
             self.call_effects(e, e['a'], args, st, nid, e.get('fid', ''))
             return T.mk('ctor', e['f'], *args)
         if k == 'init':
             return T.mk('init', *[self.ev(a, st, nid) for a in e['a']])
         if k == 'new':
+            t = T.mk('new', nid, e.get('l', 0))
+            if e.get('init') is not None:
+                self.ev(e['init'], st, nid)
             if e.get('n'):
                 n = self.ev(e['n'], st, nid)
                 self.event(nid, ('alloc', n, e.get('at'), e.get('l', 0)))
-            return T.mk('new', nid, e.get('l', 0))
+                self.alloc_size[t] = n
+            return t
         if k == 'delete':
             for a in e['a']:
                 self.ev(a, st, nid)
@@ -484,8 +491,15 @@ class Analysis:
         if k == 'sizeof':
             return T.mk('sym', 'sizeof', str(e.get('at', '')))
         if k == 'assert':
-            c = self.ev(e['c'], st, nid)
-            self.event(nid, ('assert', self.truth(c, True), e.get('l', 0)))
+            # one event per conjunct of the asserted condition
+            def conj(x):
+                if isinstance(x, dict) and x.get('k') == 'bin' and x.get('op') == '&&':
+                    conj(x['a'][0])
+                    conj(x['a'][1])
+                else:
+                    c = self.ev(x, st, nid)
+                    self.event(nid, ('assert', self.truth(c, True), e.get('l', 0)))
+            conj(e['c'])
             return T.mk('sym', 'void')
         if k == 'throw':
             v = self.ev(e.get('e'), st, nid) if e.get('e') else T.mk('sym', 'rethrow')
@@ -640,6 +654,10 @@ class Analysis:
             if is_out_type(pt):
                 l = self.loc(ae, st)
                 if l is not None:
+                    at = ae.get('t', '') if isinstance(ae, dict) else ''
+                    if at.endswith('*') and '__mpz_struct' not in at and not (isinstance(ae, dict) and ae.get('k') == 'un' and ae.get('op') == '&'):
+                        # a raw pointer handed to a callee: the callee may write the pointee, not the pointer
+                        l = ('e', l, '*')
                     outs.append((i, l))
         for i, l in outs:
             val = T.mk('out', fname, i, *args)
@@ -705,6 +723,13 @@ class Analysis:
             self.write(la, b, st)
             self.write(lb, a, st)
             return T.mk('sym', 'void')
+        if f in ('gcry_malloc_secure', 'gcry_malloc', 'malloc', 'gcry_xmalloc', 'gcry_xmalloc_secure', 'gcry_calloc') and aex:
+            args = [self.ev(a, st, nid) for a in aex]
+            t = T.mk('new', nid, line)
+            self.alloc_size[t] = args[0] if f != 'gcry_calloc' or len(args) < 2 else self.arith('*', args[0], args[1])
+            self.event(nid, ('alloc', self.alloc_size[t], f, line))
+            self.event(nid, ('call', f, tuple(args), line, fid))
+            return t
         if f in GMP_PURE:
             args = [self.ev(a, st, nid) for a in aex]
             op = GMP_PURE[f]
@@ -784,6 +809,11 @@ class Analysis:
         res = T.mk('mc', f, ov, *args)
         if not is_const and ol is not None and ol != ('thisobj',):
             self.havoc(ol, st, nid, short, args)
+            if short in ('resize', 'clear') and f.startswith('std::'):
+                # container postcondition: size() equals the requested size afterwards
+                nv = self.read(ol, st)
+                want = args[0] if (short == 'resize' and args) else T.int(0)
+                st.facts = st.facts | {self.rel('==', T.mk('mc', f.rsplit('::', 1)[0] + '::size', nv), want)}
             if short in ('push_back', 'insert', 'emplace_back', 'resize', 'assign'):
                 # the summary cell now may hold the pushed value
                 if short == 'push_back' and len(args) == 1:
@@ -975,6 +1005,8 @@ class Analysis:
         """mark a value read from an array cell whose index (anywhere on the access path) is the
         induction variable of a canonical loop: ix(value, iv)"""
         T = self.T
+        if isinstance(e, dict) and e.get('t') in ('unsigned char', 'const unsigned char'):
+            self.octets.add(v)
         x = e
         ivs = []
         while isinstance(x, dict):
